@@ -165,7 +165,8 @@ def cli_throttle_oracle():
     """`hera --throttle n file` (both spellings) ends where the machine is after n instructions of the plain run:
     n = 0 executes nothing (seed C15d: the command line turned --throttle 0 into "no throttle")."""
     from hera.main import main
-    text = "SET(R1, 5)\nINC(R1, 3)\nINC(R2, 1)\nADD(R3, R1, R2)\nINC(R4, 7)\n"
+    # long enough for the zero-padded spellings 08, 09, 010 ... to differ from an octal reading (seed C15h)
+    text = "SET(R1, 5)\nINC(R1, 3)\nINC(R2, 1)\nADD(R3, R1, R2)\nINC(R4, 7)\n" + "".join("INC(R%d, %d)\n" % (5 + k % 5, k + 1) for k in range(8))
     with tempfile.TemporaryDirectory() as d:
         p = os.path.join(d, "t.hera")
         open(p, "w").write(text)
@@ -191,12 +192,13 @@ def cli_throttle_oracle():
             states.append(list(ref.registers))
         for n in range(0, len(prog.code) + 2):
             want = states[min(n, len(prog.code))]
-            for argv in (["--quiet", "--throttle", str(n), p], ["--quiet", "--throttle=%d" % n, p], ["--throttle", "%02d" % n, "-q", p]):
+            for argv in (["--quiet", "--throttle", str(n), p], ["--quiet", "--throttle=%d" % n, p], ["--throttle", "%02d" % n, "-q", p],
+                         ["--throttle=%03d" % n, "-q", p]):
                 vm, exc, out, err = run_real(lambda: main(list(argv)))
                 if exc not in (None, "SystemExit") or vm is None:
                     return "hera %s: %s" % (" ".join(argv[:-1]), exc)
                 if list(vm.registers) != want:
-                    return "hera %s <5-instruction program> ends with registers %r; after %d instructions the machine holds %r" % (
+                    return "hera %s <14-instruction program> ends with registers %r; after %d instructions the machine holds %r" % (
                         " ".join(argv[:-1]), list(vm.registers)[:6], n, want[:6])
     return None
 
